@@ -10,10 +10,8 @@ import (
 	"github.com/XiaoMi/Gaea/parser/ast"
 	"github.com/XiaoMi/Gaea/parser/format"
 	"github.com/XiaoMi/Gaea/parser/model"
-	"github.com/XiaoMi/Gaea/parser/opcode"
 	driver "github.com/XiaoMi/Gaea/parser/tidb-types/parser_driver"
 
-	"verifharness/internal/shardfix"
 	"verifharness/internal/shardsim"
 	"verifharness/internal/sqlmodel"
 )
@@ -311,175 +309,27 @@ func neutraliseGroupLimit(c c02Case, ev evaluation) (c02Case, bool) {
 	return c, true
 }
 
-// keyBoundAtoms collects, from the statement's conditions, the sharding-column
-// literals that appear in "k < v" / "v > k" (lt) and in NOT BETWEEN (nb, with
-// the pair order preserved).
-type boundAtoms struct {
-	lt  []*driver.ValueExpr
-	nb  [][2]*driver.ValueExpr
-	all []*driver.ValueExpr
-}
-
-type boundCollector struct {
-	keyCols map[string]bool
-	out     *boundAtoms
-}
-
-func (b *boundCollector) isKey(x ast.ExprNode) bool {
-	cn, ok := x.(*ast.ColumnNameExpr)
-	return ok && b.keyCols[cn.Name.Name.L]
-}
-
-func (b *boundCollector) Enter(n ast.Node) (ast.Node, bool) {
-	switch x := n.(type) {
-	case *ast.BinaryOperationExpr:
-		lv, lok := x.L.(*driver.ValueExpr)
-		rv, rok := x.R.(*driver.ValueExpr)
-		if x.Op == opcode.LT && b.isKey(x.L) && rok {
-			b.out.lt = append(b.out.lt, rv)
-		}
-		if x.Op == opcode.GT && b.isKey(x.R) && lok {
-			b.out.lt = append(b.out.lt, lv)
-		}
-	case *ast.BetweenExpr:
-		lo, ok1 := x.Left.(*driver.ValueExpr)
-		hi, ok2 := x.Right.(*driver.ValueExpr)
-		if x.Not && b.isKey(x.Expr) && ok1 && ok2 {
-			b.out.nb = append(b.out.nb, [2]*driver.ValueExpr{lo, hi})
-		}
+// neutraliseRouteLT / neutraliseRouteNotBetween: the two routing defects
+// inherited from C01 (see shardsim/routeclass.go): the tables the defect drops
+// for this statement, when they were in fact not routed, are emptied.
+func neutraliseRouteLT(c c02Case, ev evaluation) (c02Case, bool) {
+	drop := ev.w.DroppedLT(ev.st)
+	if len(drop) == 0 {
+		return c, false
 	}
-	return n, false
-}
-func (b *boundCollector) Leave(n ast.Node) (ast.Node, bool) { return n, true }
-
-func collectBounds(st ast.StmtNode, l shardfix.Layout) boundAtoms {
-	var out boundAtoms
-	kc := map[string]bool{"k": true}
-	if l.ChildKey != "" {
-		kc[l.ChildKey] = true
-	}
-	st.Accept(&boundCollector{keyCols: kc, out: &out})
-	return out
-}
-
-func goValueOf(v *driver.ValueExpr) interface{} {
-	lit, err := sqlmodel.Literal(v)
-	if err != nil || lit.Null {
-		return nil
-	}
-	switch lit.K {
-	case sqlmodel.KInt:
-		return lit.I
-	case sqlmodel.KString:
-		return lit.S
-	}
-	return nil
-}
-
-// routedTables is the set of physical tables of t (by index) that received a
-// statement.
-func routedTables(ev evaluation) map[int]bool {
-	out := map[int]bool{}
-	for _, tl := range ev.w.F.Tables {
-		for _, tr := range ev.w.Trace {
-			if tr.Stmt.Slice != tl.Slice || tr.Stmt.DB != tl.DB {
-				continue
-			}
-			if ev.w.F.Layout.IsMycat() || strings.Contains(tr.Stmt.SQL, "`"+tl.Name+"`") || strings.Contains(tr.Stmt.SQL, "`"+tl.Child+"`") {
-				out[tl.Index] = true
-			}
-		}
-	}
-	return out
-}
-
-// dropRowsOfTables removes from the data every row (of t and tc) that lives
-// in one of the given tables.
-func dropRowsOfTables(c c02Case, w *shardsim.World, tables map[int]bool) (c02Case, bool) {
-	changed := false
-	var d shardsim.Data
-	d.G1 = c.Data.G1
-	for _, r := range c.Data.T {
-		idx, _ := w.F.Place(shardsim.GoValue(c.Layout, r.K))
-		if tables[idx] {
-			changed = true
-			continue
-		}
-		d.T = append(d.T, r)
-	}
-	for _, r := range c.Data.TC {
-		idx, _ := w.F.Place(shardsim.GoValue(c.Layout, r.K))
-		if tables[idx] {
-			changed = true
-			continue
-		}
-		d.TC = append(d.TC, r)
-	}
+	d, changed := ev.w.DropRows(c.Data, drop)
 	c.Data = d
 	return c, changed
 }
 
-// neutraliseRouteLT: calendar rule, "k < v" (or "v > k", or NOT BETWEEN v AND
-// w) with v inside a configured period: the planner drops v's own period.
-// Neutralised by emptying exactly those periods when they were not routed.
-func neutraliseRouteLT(c c02Case, ev evaluation) (c02Case, bool) {
-	if !c.Layout.IsDate() {
-		return c, false
-	}
-	b := collectBounds(ev.st, c.Layout)
-	cand := map[int]bool{}
-	for _, v := range b.lt {
-		if idx, ok := ev.w.F.Place(goValueOf(v)); ok {
-			cand[idx] = true
-		}
-	}
-	for _, p := range b.nb {
-		lo, ok1 := ev.w.F.Place(goValueOf(p[0]))
-		hi, ok2 := ev.w.F.Place(goValueOf(p[1]))
-		if ok1 && ok2 && lo <= hi {
-			cand[lo] = true
-		}
-	}
-	routed := routedTables(ev)
-	drop := map[int]bool{}
-	for idx := range cand {
-		if !routed[idx] {
-			drop[idx] = true
-		}
-	}
-	if len(drop) == 0 {
-		return c, false
-	}
-	return dropRowsOfTables(c, ev.w, drop)
-}
-
-// neutraliseRouteNotBetween: range-like rule, "k NOT BETWEEN lo AND hi" whose
-// bounds are placed in descending table order: the planner swaps them and
-// drops the tables from hi's table up to (excluding) lo's table. Neutralised
-// by emptying exactly those tables when they were not routed.
 func neutraliseRouteNotBetween(c c02Case, ev evaluation) (c02Case, bool) {
-	if !c.Layout.IsRangeLike() {
-		return c, false
-	}
-	b := collectBounds(ev.st, c.Layout)
-	routed := routedTables(ev)
-	drop := map[int]bool{}
-	for _, p := range b.nb {
-		lo, ok1 := ev.w.F.Place(goValueOf(p[0]))
-		hi, ok2 := ev.w.F.Place(goValueOf(p[1]))
-		if !ok1 || !ok2 || lo <= hi {
-			continue
-		}
-		for _, tl := range ev.w.F.Tables {
-			if tl.Index >= hi && tl.Index < lo && !routed[tl.Index] {
-				drop[tl.Index] = true
-			}
-		}
-	}
+	drop := ev.w.DroppedNB(ev.st)
 	if len(drop) == 0 {
 		return c, false
 	}
-	return dropRowsOfTables(c, ev.w, drop)
+	d, changed := ev.w.DropRows(c.Data, drop)
+	c.Data = d
+	return c, changed
 }
 
 var neutralisers = []neutraliser{
